@@ -50,7 +50,7 @@ TRUSTED = [
 ASSUMPTIONS = ["tree-shaped inputs", "max_passes and max_diffs are not exhausted during the run (default 10**7 / None)", "no nan/inf/-0.0"]
 
 HEADER = ("From DD Require Import Base.PyStr Base.Value Diff.Tree Diff.DiffModel Diff.DiffShow Hash.HashModel Lfu.LfuModel "
-          "DiffIO.DiffIOModel DiffIO.DiffIOShow DiffIO.MemoModel DiffIO.MemoShow DiffIO.DiffIOCache DiffIO.DiffIOCacheShow.\nLocal Open Scope Z_scope.")
+          "DiffIO.DiffIOModel DiffIO.DiffIOShow DiffIO.MemoModel DiffIO.MemoShow DiffIO.DiffIOCache DiffIO.DiffIOCacheShow DiffIO.MemoPairs DiffIO.MemoPairsShow.\nLocal Open Scope Z_scope.")
 
 CACHE_SIZES = [0, 1, 2, 7, 5000]
 TUNING = [0, 1, 2, 10]
@@ -62,6 +62,15 @@ PURGE = [0, 1]
 # ---------------------------------------------------------------------------
 
 _tls = threading.local()
+
+
+def float_bits(x):
+    """the IEEE bit pattern of a non-negative distance as an int: orders like the float"""
+    import struct
+    f = float(x)
+    if f != f or f < 0:
+        return None
+    return struct.unpack(">q", struct.pack(">d", f + 0.0))[0]
 
 
 def install_recorder():
@@ -96,25 +105,43 @@ def install_recorder():
         node = enter(self, "d", key[1])
         if node is not None:
             node["orient"] = bool(added_hash > removed_hash)
+            node["a"], node["r"] = added_hash, removed_hash
         ok = False
         try:
             out = orig_dist(self, added_hash, removed_hash, added_hash_obj, removed_hash_obj, _original_type)
             ok = True
             return out
         finally:
+            if node is not None and ok:
+                node["bits"] = float_bits(out)
             leave(self, node, ("d", float(out).hex()) if ok else ("exc",))
 
     def w_pairs(self, hashes_added, hashes_removed, t1_hashtable, t2_hashtable, parents_ids, _original_type):
         key = combine_hashes_lists(items=[hashes_added, hashes_removed], prefix='pairs_cache')
         node = enter(self, "p", key)
+        if node is not None:
+            node["adds"], node["rems"] = list(hashes_added), list(hashes_removed)
+            node["cutoff"] = float_bits(self.cutoff_distance_for_pairs)
         ok = False
         try:
             out = orig_pairs(self, hashes_added, hashes_removed, t1_hashtable, t2_hashtable, parents_ids, _original_type)
             ok = True
             return out
         finally:
+            if node is not None and ok:
+                node["items"] = list(out.items())
             leave(self, node, ("p", tuple(sorted(out.items()))) if ok else ("exc",))
 
+    orig_pre = getattr(DeepDiff, "_precalculate_numpy_arrays_distance", None)
+    if orig_pre is not None:
+        def w_pre(self, *a, **k):
+            out = orig_pre(self, *a, **k)
+            rec = getattr(_tls, "memo", None)
+            if out is not None and rec is not None and rec["stack"]:
+                # distances taken from numpy, not from memoised calls: {"added--removed": distance}
+                rec["stack"][-1]["precalc"] = {k: float_bits(v) for k, v in out.items()}
+            return out
+        DeepDiff._precalculate_numpy_arrays_distance = w_pre
     DeepDiff._get_rough_distance_of_hashed_objs = w_dist
     DeepDiff._get_most_in_common_pairs_in_iterables = w_pairs
     DeepDiff._verif_memo_recorder = True
@@ -190,7 +217,41 @@ def k17_match(case):
     return bool(asymmetric_keys(t1, t2, case.get("report_repetition", False), case.get("extra_knobs")))
 
 
-MATCHERS = {"C17-K17-symmetric-distance-key": k17_match}
+def pairs_order_keys(t1, t2, rep, extra=None):
+    """pairs-cache keys under which the cache-less run computes two DIFFERENT pairings for the same two sets of
+    hashes listed in a different order (the key sorts the lists, the greedy selection breaks ties by position)"""
+    from deepdiff import DeepDiff
+    with MemoRecording() as rec:
+        try:
+            DeepDiff(copy.deepcopy(t1), copy.deepcopy(t2), ignore_order=True, report_repetition=rep, **(extra or {}))
+        except Exception:  # noqa
+            return []
+    by = {}
+    for n in flatten(rec["roots"]):
+        if n["kind"] == "p" and "adds" in n:
+            by.setdefault(n["key"], []).append(n)
+    out = []
+    for k, ns in by.items():
+        if any(a["value"] != b["value"] and (a["adds"], a["rems"]) != (b["adds"], b["rems"])
+               and sorted(a["adds"]) == sorted(b["adds"]) and sorted(a["rems"]) == sorted(b["rems"]) for a in ns for b in ns):
+            out.append(k)
+    return out
+
+
+def k28_match(case):
+    """a settings failure of an ignore-order run in which two levels have the same added / removed hashes in a
+    different order and the cache-less run pairs them differently"""
+    if case.get("kind") != "settings" or not case.get("ignore_order") or not case.get("cache_size") or case.get("raised"):
+        return False
+    t1, t2 = c05.from_repr(case["t1"]), c05.from_repr(case["t2"])
+    return bool(pairs_order_keys(t1, t2, case.get("report_repetition", False), case.get("extra_knobs")))
+
+
+MATCHERS = {"C17-K17-symmetric-distance-key": k17_match, "C17-K28-pairs-key-ignores-order": k28_match}
+
+_c3 = ['c1', 'c2', 'c3']
+K28_WITNESS = ({'p': [[1, 2, 3, 4, 90]] + _c3, 'q': [[1, 2, 3, 4, 90]] + _c3},
+               {'p': [[1, 2, 3, 4, 5], [1, 2, 3, 4, 6]] + _c3, 'q': [[1, 2, 3, 4, 6], [1, 2, 3, 4, 5]] + _c3})
 
 _L9 = [1, 2, 3, 4, 5, 6, 7, 8, 9]
 K17_WITNESS = ([['u', 'b1', 'b2', 'b3', 'b4'], [list(_L9), 'a1', 'a2', 'a3', 'a4'], 'x1', 'x2', 'x3', 'x4'],
@@ -220,7 +281,22 @@ def replay_witnesses(ctx):
                                       "the refutation witness (same key, two values) no longer describes the code", "d(L,'u')": d1, "d('u',L)": d2})
     elif plain == cached:
         ctx.break_("correspondence", {"name": "C17_cache_transparent_refuted", "detail": "the K17 witness no longer gives different results with and without cache"})
-    ctx.note("refuted_witnesses_replayed", ["C17_cache_transparent_refuted (same key, two values: d(L,'u')=%r, d('u',L)=%r, one cache key)" % (d1, d2)])
+    # C17_pairs_order_refuted: two levels with the same added hashes in opposite order, a tie in the distances
+    a, b = K28_WITNESS
+    plain2 = text_result(a, b, ignore_order=True)
+    cached2 = text_result(a, b, ignore_order=True, cache_size=5000)
+    keys28 = pairs_order_keys(a, b, False)
+    if cached2.startswith("EXC ") and not plain2.startswith("EXC "):
+        ctx.fail({"kind": "settings", "t1": repr(a), "t2": repr(b), "ignore_order": True, "report_repetition": False, "cache_size": 5000,
+                  "cache_tuning_sample_size": 0, "cache_purge_level": 1, "raised": cached2},
+                 "DeepDiff raises with cache_size=5000 but returns a result with cache_size=0: " + cached2)
+    elif not keys28:
+        ctx.break_("correspondence", {"name": "C17_pairs_order_refuted", "detail": "the pairs cache key now separates the two orders of the hash lists, or the selection no longer depends "
+                                      "on the order: the refutation witness no longer describes the code"})
+    elif plain2 == cached2:
+        ctx.break_("correspondence", {"name": "C17_pairs_order_refuted", "detail": "the K28 witness no longer gives different results with and without cache"})
+    ctx.note("refuted_witnesses_replayed", ["C17_cache_transparent_refuted (same key, two values: d(L,'u')=%r, d('u',L)=%r, one cache key)" % (d1, d2),
+                                            "C17_pairs_order_refuted (one pairs key, two orders of the added hashes, two pairings: %d key(s))" % len(keys28)])
 
 
 # ---------------------------------------------------------------------------
@@ -322,11 +398,92 @@ def split_shape(rng):
     return t1, t2
 
 
+def split_items(rng, k):
+    """k unequal sub-lists of one width, pairwise at DIFFERENT small distances (no ties: the selection is then
+    independent of the order, finding K28 stays out) and symmetric (same width, distinct ints: K17 stays out)"""
+    w = rng.randint(18, 24)
+    base = rng.sample(range(0, 200), w)
+    items = [list(base)]
+    pos = rng.sample(range(w), k)                 # item i changes positions pos[0..i-1]: d(i, j) grows with |i - j|
+    for i in range(1, k):
+        it = list(items[-1])
+        it[pos[i - 1]] = 300 + 10 * i + rng.randint(0, 9)
+        items.append(it)
+    return items
+
+
+def split_enum(rng, k=3, limit=None):
+    """ALL ways in which the same k unmatched sub-lists can be split between "removed" and "added" at two places of one
+    document (each side non-empty at both places, the two splits different): whatever the order of the k hashes, the
+    enumeration contains the pair of places whose (sorted added, sorted removed) concatenate to the same sequence of
+    hashes, i.e. the two pairs-cache keys differ only in where the added list ends.  Both diffing orders occur."""
+    items = split_items(rng, k)
+    common = [rng.choice("stuvwxyz") + str(i) for i in range(4)]
+    masks = [m for m in range(1, (1 << k) - 1)]
+    combos = [(m1, m2) for m1 in masks for m2 in masks if m1 != m2]
+    if limit is not None and len(combos) > limit:
+        combos = rng.sample(combos, limit)
+    out = []
+    for m1, m2 in combos:
+        def place(m):
+            rem = [list(items[i]) for i in range(k) if not (m >> i) & 1]
+            add = [list(items[i]) for i in range(k) if (m >> i) & 1]
+            return rem + list(common), add + list(common)
+        (a1, b1), (a2, b2) = place(m1), place(m2)
+        out.append(({"p": a1, "q": a2}, {"p": b1, "q": b2}, "split-enum"))
+    return out
+
+
+def tie_shape(rng):
+    """finding K28's shape: two places with the same unmatched sub-lists, the added ones at EQUAL distance from the
+    removed one and listed in opposite orders"""
+    w = rng.randint(5, 9)
+    X = rng.sample(range(0, 60), w)
+    i = rng.randrange(w)
+    Y, Z = list(X), list(X)
+    Y[i], Z[i] = 70 + rng.randint(0, 9), 90 + rng.randint(0, 9)
+    common = [rng.choice("stuvwxyz") + str(j) for j in range(3)]
+    return ({"p": [list(X)] + common, "q": [list(X)] + common},
+            {"p": [list(Y), list(Z)] + common, "q": [list(Z), list(Y)] + common})
+
+
+def _split_task(args):
+    t1r, t2r = args
+    t1, t2 = c05.from_repr(t1r), c05.from_repr(t2r)
+    out = []
+    for rep in (False, True):
+        kw = dict(ignore_order=True, report_repetition=rep)
+        base = text_result(t1, t2, **kw)
+        for cs in (2, 7, 5000):
+            got = text_result(t1, t2, cache_size=cs, cache_tuning_sample_size=0, **kw)
+            out.append((rep, cs, got == base, got.startswith("EXC ") and not base.startswith("EXC "), got[:300], base[:300]))
+    return t1r, t2r, out
+
+
+def oracle_splits(ctx, pool):
+    """the pairing memoised for one place must never be served to a place with another split of the same items"""
+    docs = split_enum(ctx.rng, 3)
+    docs += split_enum(ctx.rng, 4, limit=(150 if ctx.thorough else 30))
+    if ctx.thorough:
+        docs += split_enum(ctx.rng, 3) + split_enum(ctx.rng, 5, limit=100)
+    for t1r, t2r, out in pool.map(_split_task, [(repr(a), repr(b)) for a, b, _k in docs], chunksize=4):
+        for rep, cs, same, raised, got, base in out:
+            ctx.seen((t1r, t2r, True, rep, cs, 0, 1, "split-enum"))
+            ctx.count("splits:settings")
+            if not same:
+                ctx.fail({"kind": "settings", "t1": t1r, "t2": t2r, "ignore_order": True, "report_repetition": rep, "cache_size": cs,
+                          "cache_tuning_sample_size": 0, "cache_purge_level": 1, "extra_knobs": {}, **({"raised": True} if raised else {}),
+                          "with_cache": got, "without_cache": base},
+                         "the result with cache_size=%r cache_tuning_sample_size=0 differs from the result without cache%s "
+                         "(two places split the same unmatched items differently between added and removed)" % (cs, " (raised)" if raised else ""))
+
+
 def gen_inputs(rng, n_planted, n_other):
     out = [split_shape(rng) + ("split",) for _ in range(max(2, n_planted // 3))]
+    out[1:1] = [tie_shape(rng) + ("tie",)]
     for _ in range(n_planted):
         out.append(planted(rng) + ("planted",))
-    while len(out) < n_planted + n_other + max(2, n_planted // 3):
+    while len(out) < n_planted + n_other + max(2, n_planted // 3) + 1:
         a, b, _k = c05.gen_pair(rng, alias=False, depth=rng.choice([2, 3, 3]))
         if V.contains_alias(a, b):
             continue
@@ -664,6 +821,67 @@ def schedule(nodes, out=None):
     return out
 
 
+def zlist(xs):
+    return core.coq_list("%d" % x for x in xs)
+
+
+def p_complete(n):
+    """the pairs node made exactly one memoised distance call per (added, removed), in loop order"""
+    if "adds" not in n or n.get("cutoff") is None:
+        return False
+    want = [(a, r) for a in n["adds"] for r in n["rems"]]
+    if n.get("precalc") is not None:
+        return not n["children"] and all(n["precalc"].get("%s--%s" % ar) is not None for ar in want)
+    got = [(ch.get("a"), ch.get("r")) for ch in n["children"]]
+    return want == got and all(ch["kind"] == "d" and ch.get("bits") is not None and all(g["kind"] == "p" for g in ch["children"]) for ch in n["children"])
+
+
+def tree_complete(nodes):
+    return all(n["kind"] == "p" and p_complete(n) and all(tree_complete(ch["children"]) for ch in n["children"]) for n in nodes)
+
+
+def prog_p(nodes, hid, final="Ret (VD 0)"):
+    """a sequence of pairs calls with COMPUTED bodies: only the hashes, the cut-off and the distance each nested run
+    ends with are taken from the recording; loop order, keys, selection and continuation are the model's"""
+    term = final
+    for n in reversed(nodes):
+        nest = core.coq_list("(%d, %d, %s)" % (hid[ch["a"]], hid[ch["r"]], prog_p(ch["children"], hid, "Ret (VD %d)" % ch["bits"]))
+                             for ch in n["children"])
+        term = "pcall dk pk %d %s %s %s %s (%s)" % (n["cutoff"], nest, pre_term(n, hid), zlist(hid[h] for h in n["adds"]), zlist(hid[h] for h in n["rems"]), term)
+    return term
+
+
+def pre_term(n, hid):
+    if n.get("precalc") is None:
+        return "None"
+    return "(Some %s)" % core.coq_list("(%d, %d, %d)" % (hid[a], hid[r], n["precalc"]["%s--%s" % (a, r)]) for a in n["adds"] for r in n["rems"])
+
+
+def select_case(n, hid):
+    """(coq expr, expected) for the selection of one recorded pairs call"""
+    if n.get("precalc") is not None:
+        ds = pre_term(n, hid)[6:-1]
+    else:
+        ds = core.coq_list("(%d, %d, %d)" % (hid[ch["a"]], hid[ch["r"]], ch["bits"]) for ch in n["children"])
+    return "select_z %d %s" % (n["cutoff"], ds), [[hid[k], hid[v]] for k, v in n["items"]]
+
+
+def key_model_ok(nodes):
+    """the two cache keys are what the model says: the pairs key is a function of the two SORTED hash lists (injective),
+    the distance key of the UNORDERED hash pair (injective)"""
+    pk, pk_inv, dk, dk_inv = {}, {}, {}, {}
+    for n in nodes:
+        if n["kind"] == "p" and "adds" in n:
+            c = (tuple(sorted(n["adds"])), tuple(sorted(n["rems"])))
+            if pk.setdefault(c, n["key"]) != n["key"] or pk_inv.setdefault(n["key"], c) != c:
+                return False
+        elif n["kind"] == "d" and "a" in n:
+            c = frozenset((n["a"], n["r"]))
+            if dk.setdefault(c, n["key"]) != n["key"] or dk_inv.setdefault(n["key"], c) != c:
+                return False
+    return True
+
+
 def _trace_task(args):
     t1r, t2r, rep, cs, tune = args
     t1, t2 = c05.from_repr(t1r), c05.from_repr(t2r)
@@ -672,7 +890,7 @@ def _trace_task(args):
     base, pure, _ = record_run(t1, t2, levels=levels, **kw)
     got, cached, ev = record_run(t1, t2, cache_size=cs, cache_tuning_sample_size=tune, **kw)
     if isinstance(base, str) or isinstance(got, str):
-        return (t1r, t2r, rep, cs, tune, got == base, "raised", ("", "", ""), "", [], 0, ev["evictions"], 0, 0)
+        return (t1r, t2r, rep, cs, tune, got == base, "raised", ("", "", ""), "", [], 0, ev["evictions"], 0, 0, (None, None, [], True))
     fp, fc = flatten(pure), flatten(cached)
     kid, vid = {}, {}
     for n in fp + fc:
@@ -688,8 +906,37 @@ def _trace_task(args):
             # explained by the symmetric distance key (both orientations of one hash pair, each with its own value)?
             if kind == "d" and all(len({n["value"] for n in ns if n.get("orient") == o}) <= 1 for o in (True, False)):
                 consistent = "asymmetric-distance" if consistent == "yes" else consistent
+            # ... or by the sorted pairs key (the same hashes listed in different orders, each order with its own pairing)?
+            elif kind == "p" and all("adds" in n for n in ns) and \
+                    len({n["value"] for n in ns}) <= len({(tuple(n["adds"]), tuple(n["rems"])) for n in ns}) and \
+                    all(a["value"] == b["value"] for a in ns for b in ns if (a["adds"], a["rems"]) == (b["adds"], b["rems"])):
+                consistent = "pairs-order" if consistent == "yes" else consistent
             else:
                 consistent = "no"
+    # the pairs bodies computed by the model (MemoPairs.v): selection of every recorded pairs call, and the whole run
+    hid = {}
+    for n in fp + fc:
+        for h in (n.get("adds", []) + n.get("rems", []) + [x for x in (n.get("a"), n.get("r")) if x is not None]):
+            hid.setdefault(h, len(hid))
+    sel = [select_case(n, hid) for n in fp if n["kind"] == "p" and p_complete(n) and "items" in n]
+    keys_ok = key_model_ok(fp + fc)
+    pexpr, plog = None, None
+    if tree_complete(pure) and all(("bits" in n) if n["kind"] == "d" else ("items" in n) for n in fc):
+        dk, pkt = {}, {}
+        for n in fp + fc:
+            if n["kind"] == "d":
+                dk[(hid[n["a"]], hid[n["r"]])] = kid[("d", n["key"])]
+            else:
+                pkt[(tuple(hid[h] for h in n["adds"]), tuple(hid[h] for h in n["rems"]))] = kid[("p", n["key"])]
+        pexpr = "(let dk := %s in let pk := %s in run_trace_p %d %s (%s))" % (
+            core.coq_list("(%d, %d, %d)" % (a, r, k) for (a, r), k in dk.items()),
+            core.coq_list("(%s, %s, %d)" % (zlist(a), zlist(r), k) for (a, r), k in pkt.items()),
+            cs, core.coq_list("true" if b else "false" for b in schedule(cached)), prog_p(pure, hid))
+        plog = []
+        for n in fc:      # flatten() is the pre-order of the calls actually made
+            oc = 0 if not n["en_get"] else 1 if n["hit"] else 2 if n["en_set"] else 3
+            val = [0, n["bits"]] if n["kind"] == "d" else [1, [[hid[k], hid[v]] for k, v in n["items"]]]
+            plog.append([kid[(n["kind"], n["key"])], oc, val])
     sched = schedule(cached)
     texpr = "run_trace %d %s (%s)" % (cs, core.coq_list("true" if b else "false" for b in sched), coq_prog(pure, kid, vid))
     cexpr = "check_consistent (%s)" % coq_prog(pure, kid, vid)
@@ -712,7 +959,58 @@ def _trace_task(args):
         expr = "BAD-LEVELS"
         oexpr = ""
     return (t1r, t2r, rep, cs, tune, got == base, consistent, (expr, oexpr, texpr), cexpr, log,
-            sum(1 for x in cached_log(cached, kid, vid) if x[1] == 1), ev["evictions"], len(fp), len(sched) - sum(sched))
+            sum(1 for x in cached_log(cached, kid, vid) if x[1] == 1), ev["evictions"], len(fp), len(sched) - sum(sched),
+            (pexpr, plog, sel, keys_ok))
+
+
+class _Obj:
+    def __init__(self, item):
+        self.item = item
+        self.indexes = [0]
+
+
+def select_synthetic(ctx, n):
+    """the real _get_most_in_common_pairs_in_iterables on arbitrary distance matrices (many ties, random list orders),
+    driven through a stub `self` whose distance method reads a table"""
+    from deepdiff import DeepDiff
+    from deepdiff.lfucache import DummyLFU
+    try:
+        from deepdiff.diff import DISTANCE_CACHE_ENABLED
+    except Exception:  # noqa
+        return []
+    rng = ctx.rng
+    out = []
+
+    class Stub:
+        iterable_compare_func = None
+
+        def _precalculate_numpy_arrays_distance(self, *a, **k):
+            return None
+
+        def _get_rough_distance_of_hashed_objs(self, added_hash, removed_hash, *a, **k):
+            return self.table[(added_hash, removed_hash)]
+    for i in range(n):
+        na, nr = rng.randint(0, 5), rng.randint(0, 5)
+        adds, rems = ["a%d" % j for j in range(na)], ["r%d" % j for j in range(nr)]
+        rng.shuffle(adds)
+        rng.shuffle(rems)
+        vals = [rng.choice([0, 0.1, 0.2, 0.25, 0.3, 0.5, 1.0, 1.5]) for _ in range(rng.randint(1, 4))]
+        st = Stub()
+        st.table = {(a, r): rng.choice(vals) for a in adds for r in rems}
+        st._stats = {DISTANCE_CACHE_ENABLED: False}
+        st._distance_cache = DummyLFU()
+        st.cutoff_distance_for_pairs = rng.choice([0.3, 0.3, 0.5, 1.0])
+        try:
+            got = DeepDiff._get_most_in_common_pairs_in_iterables(st, list(adds), list(rems), {h: _Obj([h]) for h in rems},
+                                                                 {h: _Obj([h]) for h in adds}, frozenset(), None)
+        except Exception as e:  # noqa  the private method changed shape: the recorded calls still cover the selection
+            ctx.note("select_synthetic", "stub call raised " + repr(e))
+            return out
+        num = {h: k for k, h in enumerate(adds + rems)}
+        ds = core.coq_list("(%d, %d, %d)" % (num[a], num[r], float_bits(st.table[(a, r)])) for a in adds for r in rems)
+        out.append(("select_z %d %s" % (float_bits(st.cutoff_distance_for_pairs), ds), [[num[k], num[v]] for k, v in got.items()],
+                    {"synthetic": i, "added": adds, "removed": rems, "distances": {"%s,%s" % k: v for k, v in st.table.items()}}))
+    return out
 
 
 def correspondence(ctx, inputs, pool):
@@ -729,8 +1027,16 @@ def correspondence(ctx, inputs, pool):
     seen_o = set()
     hits = evs = disabled = 0
     tcases = []
-    for t1r, t2r, rep, cs, tune, same, consistent, (expr, oexpr, texpr), cexpr, log, nh, nev, ncalls, ndis in res:
+    pcases, selcases, seen_sel = [], [], set()
+    for t1r, t2r, rep, cs, tune, same, consistent, (expr, oexpr, texpr), cexpr, log, nh, nev, ncalls, ndis, (pexpr, plog, sel, keys_ok) in res:
         tag = {"t1": t1r, "t2": t2r, "report_repetition": rep, "cache_size": cs, "cache_tuning_sample_size": tune}
+        if not keys_ok:
+            ctx.break_("correspondence", dict(tag, what="a cache key is not the function of its arguments the model says: pairs key = f(sorted added, sorted removed), "
+                                                       "distance key = f(unordered hash pair), both injective"))
+        for sx_, want in sel:          # the greedy selection of every recorded pairs call, inside or outside the guard
+            if sx_ not in seen_sel:
+                seen_sel.add(sx_)
+                selcases.append((sx_, want, tag))
         if not same:
             ctx.fail(dict(tag, kind="settings", ignore_order=True, cache_purge_level=1, **({"raised": True} if consistent == "raised" else {})),
                      "the result with cache_size=%r cache_tuning_sample_size=%r differs from the result without cache%s" % (
@@ -744,6 +1050,10 @@ def correspondence(ctx, inputs, pool):
         if consistent == "asymmetric-distance":
             # finding C17-K17: outside the guard of the theorem; the cached run may legitimately diverge from the prediction
             ctx.count("trace:asymmetric_distance_key(guard `consistent` fails: finding C17-K17)")
+            continue
+        if consistent == "pairs-order":
+            # finding C17-K28: same hashes in another order under one pairs key, paired differently
+            ctx.count("trace:pairs_key_ignores_order(guard `consistent` fails: finding C17-K28)")
             continue
         if ncalls == 0:
             ctx.count("trace:no_lookup")
@@ -760,6 +1070,10 @@ def correspondence(ctx, inputs, pool):
         if ndis:
             ctx.count("trace:cache_switched_off_mid_run")
         tcases.append((texpr, log[1], tag))
+        if pexpr is not None:
+            pcases.append((pexpr, plog, tag))
+        else:
+            ctx.count("trace:pairs_body_not_computable(numpy pre-calculated distances / skipped pair)")
         if ((t1r, t2r) in small_set or (ctx.thorough and len(t1r) + len(t2r) < 1400)) and (cs, tune) in (((7, 0), (2, 1), (1, 0), (3, 10)) if ctx.thorough else ((7, 0), (2, 1))):
             cases.append((expr, log, tag))
         ccases.append((cexpr, True, tag))
@@ -770,6 +1084,10 @@ def correspondence(ctx, inputs, pool):
     ctx.note("trace_evictions", evs)
     ctx.note("trace_disabled_lookups", disabled)
     ctx.coq_cases("memo_trace", HEADER, tcases, shard=40, label="memo_model:every_cache_event_of_the_run")
+    ctx.coq_cases("memo_trace_computed", HEADER, pcases, shard=20, label="memo_model_with_computed_pairs_bodies:every_cache_event_and_value")
+    selcases += select_synthetic(ctx, 2000 if ctx.thorough else 300)
+    ctx.coq_cases("pairs_select", HEADER, selcases, shard=300, label="greedy_pair_selection")
+    ctx.note("pairs_select_cases", {"recorded_pairs_calls": len(seen_sel), "synthetic(ties, real method through a stub self)": len(selcases) - len(seen_sel)})
     bad = ctx.coq_cases("st_trace", HEADER, cases, shard=3, label="diff_model_with_one_cache:result+every_cache_event")
     if bad:
         # The RESULT of the one-cache diff model is compared strictly.  Its event log additionally depends on the order in
@@ -1040,6 +1358,7 @@ def run(ctx):
         tm["correspondence"] = round(time.time() - t0, 1)
         t0 = time.time()
         oracle_grid(ctx, inputs, pool, full=ctx.thorough)
+        oracle_splits(ctx, pool)
         tm["grid"] = round(time.time() - t0, 1)
         t0 = time.time()
         oracle_hashes(ctx, pool, core.NCPU, 12 if ctx.thorough else 3, 6 if ctx.thorough else 2)
